@@ -58,7 +58,7 @@ func (w WrongSpec) resolve(right []byte) ([]byte, bool) {
 		if m == 0 {
 			m = 1
 		}
-		out[w.Idx%len(right)] ^= m
+		out[((w.Idx%len(right))+len(right))%len(right)] ^= m // negative = from the end
 	case "shorter":
 		if len(right) == 0 {
 			return nil, false
@@ -96,14 +96,14 @@ func genPass(t *rapid.T, label string, minLen int) PassSpec {
 			p = PassSpec{Bytes: []byte{}}
 		case 1:
 			p = PassSpec{Bytes: rapid.SliceOfN(rapid.Byte(), 1, 1).Draw(t, label+"-1")}
-		case 2:
+		case 2, 3:
 			n := rapid.SampledFrom([]int{31, 32, 33}).Draw(t, label+"-len")
 			p = PassSpec{Bytes: rapid.SliceOfN(rapid.Byte(), 1, 8).Draw(t, label+"-unit"), PadTo: n}
-		case 3:
-			p = PassSpec{Bytes: rapid.SliceOfN(rapid.Byte(), 0, 8).Draw(t, label+"-unit"), PadTo: 10 * 1024}
 		case 4:
-			p = PassSpec{Bytes: []byte(rapid.StringMatching(`[ -~]{1,24}`).Draw(t, label+"-text"))}
+			p = PassSpec{Bytes: rapid.SliceOfN(rapid.Byte(), 0, 8).Draw(t, label+"-unit"), PadTo: 10 * 1024}
 		case 5:
+			p = PassSpec{Bytes: []byte(rapid.StringMatching(`[ -~]{1,24}`).Draw(t, label+"-text"))}
+		case 6, 7:
 			p = PassSpec{Bytes: rapid.SliceOfN(rapid.Byte(), 33, 80).Draw(t, label+"-long")}
 		default:
 			p = PassSpec{Bytes: rapid.SliceOfN(rapid.Byte(), 0, 40).Draw(t, label+"-bytes")}
@@ -115,12 +115,20 @@ func genPass(t *rapid.T, label string, minLen int) PassSpec {
 }
 
 func genWrong(t *rapid.T) WrongSpec {
-	w := WrongSpec{Kind: rapid.SampledFrom([]string{"random", "flip", "flip", "shorter", "longer", "empty"}).Draw(t, "wrong-kind")}
+	w := WrongSpec{Kind: rapid.SampledFrom([]string{"random", "flip", "flip", "flip", "shorter", "longer", "empty"}).Draw(t, "wrong-kind")}
 	switch w.Kind {
 	case "random":
 		w.Bytes = rapid.SliceOfN(rapid.Byte(), 0, 40).Draw(t, "wrong-bytes")
 	case "flip":
-		w.Idx = rapid.IntRange(0, 10*1024).Draw(t, "wrong-idx")
+		// first byte, last byte (a derivation that drops the tail of a long pass-phrase), anywhere
+		switch rapid.IntRange(0, 2).Draw(t, "wrong-where") {
+		case 0:
+			w.Idx = 0
+		case 1:
+			w.Idx = -1
+		default:
+			w.Idx = rapid.IntRange(0, 10*1024).Draw(t, "wrong-idx")
+		}
 		w.Byte = rapid.Byte().Draw(t, "wrong-mask")
 	case "longer":
 		w.Byte = rapid.Byte().Draw(t, "wrong-extra")
@@ -139,7 +147,7 @@ func genRT(t *rapid.T) RTScenario {
 		sc.KeyLabel = rapid.SampledFrom([]string{"k0", "k1", "k2", "k3"}).Draw(t, "key")
 	}
 	sc.Pass = genPass(t, "pass", minLen)
-	nw := rapid.IntRange(0, 2).Draw(t, "nwrong")
+	nw := rapid.IntRange(1, 2).Draw(t, "nwrong")
 	if sc.Source == srcLegacy {
 		nw = rapid.IntRange(1, 4).Draw(t, "nwrong-legacy") // no Argon2id: wrong pass-phrases are cheap
 	}
@@ -303,5 +311,5 @@ func runRT(sc RTScenario) world.Verdict {
 }
 
 func TestC19Roundtrip(t *testing.T) {
-	world.Run(t, "C19", "key-roundtrip", world.Scale(10, 30), genRT, runRT)
+	world.Run(t, "C19", "key-roundtrip", world.Scale(20, 25), genRT, runRT)
 }
